@@ -1,6 +1,7 @@
 import Tahoe.Crypto.Lemmas
+import Tahoe.Crypto.UseLemmas
 /-! C17 — key and secret derivations match the specification (property theorems only; helper lemmas in
-    `Tahoe/Crypto/Lemmas.lean`, `Tahoe/Base/NetstringEnc.lean`, `Tahoe/Base/Sha256.lean`).
+    `Tahoe/Crypto/Lemmas.lean`, `Tahoe/Crypto/UseLemmas.lean`, `Tahoe/Base/NetstringEnc.lean`, `Tahoe/Base/Sha256.lean`).
 
     Every tag string and truncation length below is written as a *literal* copied from the
     documentation (docs/specifications/lease.rst, file-encoding.rst, mutable.rst, uri.rst, dirnodes.rst)
@@ -9,9 +10,36 @@ import Tahoe.Crypto.Lemmas
     truncations from `Tahoe/Generated/Hashutil.lean` (regenerated from the live source on every run), so
     an edit of a tag or of a truncation in the source makes the corresponding theorem here fail to build.
 
-    SHA-256 itself is the executable definition of `Tahoe/Base/Sha256.lean` (validated by vectors and by
-    correspondence with hashlib, not proved against FIPS 180-4); nothing below depends on its internals
-    except `sha256_length`. -/
+    ## Coverage of the statement
+
+    Statement (properties.jsonl): "Storage indexes, mutable read keys, write enablers, data keys, directory
+    child-cap keys and lease renewal/cancel secrets are computed exactly as the specification describes
+    (tagged double SHA-256 with netstring-wrapped tags), for all inputs.  Any change to them would make
+    existing files unreachable or leases unrenewable."  Observation points: bytes passed to storage servers
+    (lease secrets, write enablers), cap storage indexes.
+
+    | clause | theorem(s) for the model | tie of model to code |
+    |---|---|---|
+    | immutable storage index = SHA256d(netstring(tag)+key)[:16] | `spec_form_storage_index`, `storage_index_tag_as_documented`, `lengths_16` | extraction (tag, truncation) + correspondence (`storage_index_hash`, `uri.CHKFileURI`, uploads on the grid) |
+    | mutable read key, storage index | `spec_form_ssk_readkey`, `spec_form_ssk_storage_index`, `chain_ssk_caps`, `chain_privkey_to_storage_index`, `mutable_node_storage_index` | extraction + correspondence (hashutil, `uri.*SSK*/*MDMF*` incl. string round trip, `MutableFileNode`, grid) |
+    | write key, pubkey fingerprint | `spec_form_ssk_writekey`, `spec_form_ssk_pubkey_fingerprint` | extraction + correspondence (`derive_mutable_keys` on real RSA keys) |
+    | write enablers (master + per server) | `spec_form_ssk_write_enabler_master`, `spec_form_ssk_write_enabler`, `lengths_32` | extraction + correspondence |
+    | … the write enabler SENT to each server is that server's | `publish_writers_pairing`, `publish_defined_iff` (any goal list) | correspondence: `pubwriters` vs `slot_testv_and_readv_and_writev` traffic on the grid; `MutableFileNode.get_write_enabler` call histories |
+    | data keys | `spec_form_ssk_datakey` | extraction + correspondence (hashutil only; `Retrieve`/`Publish` use is exercised on the grid by reading back, not compared) |
+    | directory child-cap keys (and salt) | `spec_form_dirnode_child_key`, `spec_form_dirnode_child_salt`, `chain_dirnode_child_key` | extraction + correspondence (`_encrypt_rw_uri`, `_decrypt_rwcapdata` histories) |
+    | lease renewal / cancel secrets, client → file → bucket | `spec_form_client_*`, `spec_form_file_*`, `spec_form_bucket_*`, `chain_renewal_secret`, `chain_cancel_secret`, `lease_tags_as_documented` | extraction + correspondence + lease.rst vectors |
+    | … the lease secrets SENT to each server are that server's (upload, repair) | `trackers_pairing`, `tracker_uses_own_server_secret`, `trackers_defined_iff`, `upload_query_carries_own_server_chain` (any candidate list, any filter) | correspondence: `trackers`/`uptrackers` vs `Tahoe2ServerSelector._create_trackers` / `get_shareholders`; `allocate_buckets` traffic on grids with filtered servers |
+    | … add-lease renews the lease the upload/publish created ("leases unrenewable") | `add_lease_matches_upload_lease`, `mutable_add_lease_matches_publish_lease` | correspondence: `chkaddlease`/`mutaddlease` vs `add_lease` traffic; monitor: one lease per share, renewable with the spec secret |
+    | "tagged double SHA-256 with netstring-wrapped tags" | every `spec_form_*` (shape), `pre_is_hasher_input`, `hasher_streaming`, `netstring_unique_decoding`, `netstring_prefix_free` | `tag_binding*` (extractor observes tag, #feeds, truncation of each function) |
+    | tags single-purpose (a change/confusion of derivations cannot collide) | `tags_pairwise_distinct`, `domain_separated` (guard shown tight by `domain_separation_needs_secret_length`) | — |
+    | convergent key | `spec_form_convergence`, `convergence_rejects_bad_parameters`, `tag_binding_convergence` | extraction + correspondence |
+    | "for all inputs" | all of the above are ∀-statements without size bounds; where the code asserts (`len(peerid) == 20`) or raises (k,n range) the theorems say so (`*_defined_iff`, `if … then … else none`) | correspondence covers the assert / ValueError paths |
+    | call results do not depend on call history (no stale per-server memo) | trivial in the model (the model functions are pure); NOT a theorem about the code | correspondence only: seeded call histories on long-lived objects with colliding server identities |
+    | SHA-256 / SHA-1 are the FIPS functions | not covered (only `sha256_length`); the Lean SHA-256 is validated by NIST vectors (`#guard`) | correspondence with hashlib on boundary lengths |
+    | "any change would make files unreachable" (consequence) | not a theorem; it is the reason the tag/truncation pins exist | monitor: known-answer vectors of test_hashutil.py and lease.rst |
+
+    SHA-256 itself is the executable definition of `Tahoe/Base/Sha256.lean`; nothing below depends on its
+    internals except `sha256_length`. -/
 namespace Tahoe.C17
 open Tahoe.Crypto.Derive Tahoe.Base.Sha256 Tahoe.Base.NetstringEnc Tahoe.Generated
 
@@ -483,5 +511,188 @@ example : ∃ p1 p2, (Deriv.clientRenewal (List.replicate 32 1)).WellFormed ∧ 
 theorem domain_separation_needs_secret_length :
     ∃ d1 d2 : Deriv, d1.kind ≠ d2.kind ∧ d1.pre = d2.pre ∧ d1.pre.isSome = true :=
   ⟨.clientRenewal Hashutil.BLOCK_TAG, .block Hashutil.CLIENT_RENEWAL_TAG, by decide, rfl, rfl⟩
+
+/-! ## secrets at the point of USE: every server is sent the secret derived from ITS OWN seed
+
+Model: `Tahoe/Crypto/Use.lean` (`Tahoe2ServerSelector._create_trackers` / `get_shareholders` / `ServerTracker.query`,
+`Checker._get_buckets`, `MutableFileNode.get_*`, `Publish.publish/update`, `ServermapUpdater._do_read`).
+All statements are for an arbitrary candidate list (any order, any length), an arbitrary writeable filter and
+arbitrary server records; `none` is the code's `assert len(seed) == 20`. -/
+section Use
+open Tahoe.Crypto.Use
+
+/-- **Pairing of servers with lease secrets in the uploader.**  Whatever the candidate list and whatever the
+    writeable filter `p`, the write trackers are exactly the candidates passing the filter, in order, and the
+    read-only trackers exactly the others, each carrying
+    `SHA256d(netstring(bucket tag) ++ netstring(file secret) ++ netstring(ITS OWN lease seed))`. -/
+theorem trackers_pairing (p : Server → Bool) (cands : List Server) (frs fcs : List UInt8) (ro wr : List Tracker)
+    (h : createTrackersP p cands frs fcs = some (ro, wr)) :
+    wr = (cands.filter p).map (fun s => (⟨s,
+        sha256 (sha256 (netstring (ascii "allmydata_bucket_renewal_secret_v1") ++ netstring frs ++ netstring s.leaseSeed)),
+        sha256 (sha256 (netstring (ascii "allmydata_bucket_cancel_secret_v1") ++ netstring fcs ++ netstring s.leaseSeed))⟩ : Tracker)) ∧
+    ro = (cands.filter (fun s => !p s)).map (fun s => (⟨s,
+        sha256 (sha256 (netstring (ascii "allmydata_bucket_renewal_secret_v1") ++ netstring frs ++ netstring s.leaseSeed)),
+        sha256 (sha256 (netstring (ascii "allmydata_bucket_cancel_secret_v1") ++ netstring fcs ++ netstring s.leaseSeed))⟩ : Tracker)) := by
+  have hs : specTracker frs fcs = (fun s => (⟨s,
+        sha256 (sha256 (netstring (ascii "allmydata_bucket_renewal_secret_v1") ++ netstring frs ++ netstring s.leaseSeed)),
+        sha256 (sha256 (netstring (ascii "allmydata_bucket_cancel_secret_v1") ++ netstring fcs ++ netstring s.leaseSeed))⟩ : Tracker)) := by
+    funext s
+    rw [← tag_BUCKET_RENEWAL, ← tag_BUCKET_CANCEL]
+    simp only [List.append_assoc]; rfl
+  obtain ⟨h1, h2, _⟩ := createTrackersP_some_inv p cands frs fcs ro wr h
+  rw [← hs]
+  exact ⟨h1, h2⟩
+
+example : createTrackersP (writeable 100)
+    [⟨[1], List.replicate 20 7, [], 0⟩, ⟨[2], List.replicate 20 8, [], 1000⟩, ⟨[3], List.replicate 20 9, [], 50⟩] [4] [5] ≠ none := by
+  rw [createTrackersP_of_all20 _ _ _ _ (by decide)]; simp
+
+/-- the uploader's trackers are defined exactly when every candidate's lease seed is 20 bytes (otherwise the
+    code dies in an `assert`: no query is sent at all) -/
+theorem trackers_defined_iff (p : Server → Bool) (cands : List Server) (frs fcs : List UInt8) :
+    createTrackersP p cands frs fcs ≠ none ↔ ∀ s ∈ cands, s.leaseSeed.length = 20 := by
+  constructor
+  · intro h
+    match hc : createTrackersP p cands frs fcs with
+    | none => exact absurd hc h
+    | some (ro, wr) => exact (createTrackersP_some_inv p cands frs fcs ro wr hc).2.2
+  · intro h; rw [createTrackersP_of_all20 p cands frs fcs h]; simp
+
+example : createTrackersP (fun _ => true) [⟨[1], [0], [], 0⟩] [4] [5] = none := by
+  simp [createTrackersP, makeTrackers, mkTracker, bucketRenewalSecretHash]
+
+/-- **Every tracker gets H(file secret, its own server's seed)** and belongs to a candidate; no candidate is
+    lost or duplicated (the trackers' servers are a permutation of the candidate list). -/
+theorem tracker_uses_own_server_secret (p : Server → Bool) (cands : List Server) (frs fcs : List UInt8)
+    (ro wr : List Tracker) (h : createTrackersP p cands frs fcs = some (ro, wr)) :
+    (∀ t ∈ ro ++ wr, t.server ∈ cands ∧
+      some t.renew = bucketRenewalSecretHash frs t.server.leaseSeed ∧
+      some t.cancel = bucketCancelSecretHash fcs t.server.leaseSeed) ∧
+    ((wr ++ ro).map (·.server)).Perm cands := by
+  obtain ⟨h1, h2, h20⟩ := createTrackersP_some_inv p cands frs fcs ro wr h
+  have key : ∀ (q : Server → Bool) (t : Tracker), t ∈ (cands.filter q).map (specTracker frs fcs) →
+      t.server ∈ cands ∧ some t.renew = bucketRenewalSecretHash frs t.server.leaseSeed ∧
+      some t.cancel = bucketCancelSecretHash fcs t.server.leaseSeed := by
+    intro q t ht
+    obtain ⟨s, hs, rfl⟩ := List.mem_map.mp ht
+    have hsc := (List.mem_filter.mp hs).1
+    have hl := h20 s hsc
+    simp only [specTracker, bucketRenewalSecretHash, bucketCancelSecretHash, hl, if_true]
+    exact ⟨hsc, trivial, trivial⟩
+  refine ⟨?_, ?_⟩
+  · intro t ht
+    rcases List.mem_append.mp ht with ht | ht
+    · exact key _ t (h2 ▸ ht)
+    · exact key _ t (h1 ▸ ht)
+  · have e : ∀ q : Server → Bool, ((cands.filter q).map (specTracker frs fcs)).map (·.server) = cands.filter q := by
+      intro q; simp [List.map_map, Function.comp_def, specTracker]
+    rw [h1, h2, List.map_append, e, e]
+    exact List.filter_append_perm p cands
+
+example : createTrackersP (fun s => s.maxImmutableShareSize ≥ 5)
+    [⟨[1], List.replicate 20 7, [], 9⟩, ⟨[2], List.replicate 20 8, [], 1⟩] [4] [5] ≠ none := by
+  rw [createTrackersP_of_all20 _ _ _ _ (by decide)]; simp
+
+/-- **Upload, end to end**: from the client's lease secret and the storage index, through the `2N` cut of the
+    permuted server list and the size filter, every `allocate_buckets` a tracker can send goes to that tracker's
+    server and carries the full lease.rst chain for that server's lease seed. -/
+theorem upload_query_carries_own_server_chain (leaseSecret si : List UInt8) (permuted : List Server)
+    (totalShares allocatedSize : Nat) (ro wr : List Tracker)
+    (h : uploadTrackers leaseSecret si permuted totalShares allocatedSize = some (ro, wr)) :
+    ∀ t ∈ ro ++ wr, t.server ∈ permuted.take (2 * totalShares) ∧
+      (t.query si).server = t.server ∧ (t.query si).storageIndex = si ∧
+      some (t.query si).renew = renewalSecretChain leaseSecret si t.server.leaseSeed ∧
+      some (t.query si).cancel = cancelSecretChain leaseSecret si t.server.leaseSeed := by
+  intro t ht
+  obtain ⟨hm, hr, hc⟩ := (tracker_uses_own_server_secret _ _ _ _ ro wr h).1 t ht
+  exact ⟨hm, rfl, rfl, hr, hc⟩
+
+example : uploadTrackers [1] [2] [⟨[1], List.replicate 20 7, [], 9⟩, ⟨[2], List.replicate 20 8, [], 1⟩] 1 5 ≠ none := by
+  simp only [uploadTrackers, createTrackers]
+  rw [createTrackersP_of_all20 _ _ _ _ (by decide)]; simp
+
+/-- **check --add-lease renews the lease the upload created**: for every server the uploader made a tracker
+    for, the checker's `add_lease` message is the tracker's `allocate_buckets` message (same storage index, same
+    renew and cancel secret) — so the server finds the existing lease instead of adding a second one. -/
+theorem add_lease_matches_upload_lease (leaseSecret si : List UInt8) (permuted : List Server)
+    (totalShares allocatedSize : Nat) (ro wr : List Tracker)
+    (h : uploadTrackers leaseSecret si permuted totalShares allocatedSize = some (ro, wr)) :
+    ∀ t ∈ ro ++ wr, checkerAddLease leaseSecret si t.server = some (t.query si) := by
+  intro t ht
+  obtain ⟨_, hr, hc⟩ := (tracker_uses_own_server_secret _ _ _ _ ro wr h).1 t ht
+  simp only [checkerAddLease, ← hr, ← hc, Tracker.query]
+
+example : checkerAddLease [1] [2] ⟨[1], List.replicate 20 7, [], 9⟩ ≠ none := by
+  simp [checkerAddLease, bucketRenewalSecretHash, bucketCancelSecretHash]
+
+/-- **Mutable publish: every write proxy gets the write enabler and lease secrets of ITS OWN server.**  For any
+    goal list, the writers are the goal's (server, shnum) pairs in order; each carries the node's storage index,
+    `WE = SHA256d(netstring(we tag) ++ netstring(write-enabler master(writekey)) ++ netstring(that server's
+    write-enabler seed))` and the lease.rst chains for that server's lease seed. -/
+theorem publish_writers_pairing (nd : MutNode) (goal : List (Server × Nat)) (ws : List Writer)
+    (h : publishWriters nd goal = some ws) :
+    ws.map (fun w => (w.server, w.shnum)) = goal ∧
+    ∀ w ∈ ws, w.storageIndex = nd.storageIndex ∧
+      w.we = sha256 (sha256 (netstring (ascii "allmydata_mutable_write_enabler_master_and_nodeid_to_write_enabler_v1")
+              ++ netstring (sha256 (sha256 (netstring (ascii "allmydata_mutable_writekey_to_write_enabler_master_v1") ++ nd.writekey)))
+              ++ netstring w.server.weSeed)) ∧
+      some w.renew = renewalSecretChain nd.leaseSecret nd.storageIndex w.server.leaseSeed ∧
+      some w.cancel = cancelSecretChain nd.leaseSecret nd.storageIndex w.server.leaseSeed := by
+  obtain ⟨h20, hw⟩ := publishWriters_some_inv nd goal ws h
+  subst hw
+  refine ⟨by simp [List.map_map, Function.comp_def, specWriter], ?_⟩
+  intro w hwm
+  obtain ⟨g, hg, rfl⟩ := List.mem_map.mp hwm
+  have hl := (h20 g hg).2
+  refine ⟨rfl, ?_, ?_, ?_⟩
+  · rw [← tag_MUTABLE_WRITE_ENABLER, ← tag_MUTABLE_WRITE_ENABLER_MASTER]
+    simp only [List.append_assoc]; rfl
+  · simp only [specWriter, renewalSecretChain, bucketRenewalSecretHash, hl, if_true]
+  · simp only [specWriter, cancelSecretChain, bucketCancelSecretHash, hl, if_true]
+
+example : publishWriters (mkMutNode [1] [2])
+    [(⟨[1], List.replicate 20 7, List.replicate 20 3, 0⟩, 0), (⟨[1], List.replicate 20 8, List.replicate 20 4, 0⟩, 1)] ≠ none := by
+  rw [publishWriters_of_all20 _ _ (by decide)]; simp
+
+/-- publish builds its writers exactly when every goal server has 20-byte seeds (else an `assert` fires) -/
+theorem publish_defined_iff (nd : MutNode) (goal : List (Server × Nat)) :
+    publishWriters nd goal ≠ none ↔ ∀ g ∈ goal, g.1.weSeed.length = 20 ∧ g.1.leaseSeed.length = 20 := by
+  constructor
+  · intro h
+    match hc : publishWriters nd goal with
+    | none => exact absurd hc h
+    | some ws => exact (publishWriters_some_inv nd goal ws hc).1
+  · intro h; rw [publishWriters_of_all20 nd goal h]; simp
+
+example : publishWriters (mkMutNode [1] [2]) [(⟨[1], List.replicate 20 7, [9], 0⟩, 0)] = none := by
+  simp [publishWriters, mkWriter, MutNode.getWriteEnabler]
+
+/-- **mutable check --add-lease renews the lease publish created**: the servermap updater's `add_lease` for a
+    server carries the storage index and the lease secrets of the write proxy for that server. -/
+theorem mutable_add_lease_matches_publish_lease (nd : MutNode) (goal : List (Server × Nat)) (ws : List Writer)
+    (h : publishWriters nd goal = some ws) :
+    ∀ w ∈ ws, mutableAddLease nd w.server = some ⟨w.server, w.storageIndex, w.renew, w.cancel⟩ := by
+  intro w hw
+  obtain ⟨h20, hws⟩ := publishWriters_some_inv nd goal ws h
+  subst hws
+  obtain ⟨g, hg, rfl⟩ := List.mem_map.mp hw
+  have hl := (h20 g hg).2
+  simp only [mutableAddLease, MutNode.getRenewalSecret, MutNode.getCancelSecret, specWriter, hl, if_true,
+    renewalSecretChain, cancelSecretChain, bucketRenewalSecretHash, bucketCancelSecretHash]
+
+example : mutableAddLease (mkMutNode [1] [2]) ⟨[1], List.replicate 20 7, [], 0⟩ ≠ none := by
+  simp [mutableAddLease, MutNode.getRenewalSecret, MutNode.getCancelSecret, renewalSecretChain, cancelSecretChain,
+    bucketRenewalSecretHash, bucketCancelSecretHash]
+
+/-- the node's storage index is the cap's: write key → read key → storage index (so the messages above are
+    addressed to the slot the cap names) -/
+theorem mutable_node_storage_index (leaseSecret writekey : List UInt8) :
+    (mkMutNode leaseSecret writekey).storageIndex
+      = (sha256 (sha256 (netstring (ascii "allmydata_mutable_readkey_to_storage_index_v1")
+          ++ (sha256 (sha256 (netstring (ascii "allmydata_mutable_writekey_to_readkey_v1") ++ writekey))).take 16))).take 16 := by
+  rw [← tag_MUTABLE_READKEY, ← tag_MUTABLE_STORAGEINDEX]
+  rfl
+
+end Use
 
 end Tahoe.C17
